@@ -236,7 +236,14 @@ func desc(v ssa.Value, depth int) string {
 		if a, ok := x.X.(*ssa.Alloc); ok && a.Comment == "varargs" {
 			return "[" + strings.Join(varargElems(a, d), ", ") + "]"
 		}
-		return desc(x.X, d) + "[:]"
+		lo, hi := "", ""
+		if x.Low != nil {
+			lo = desc(x.Low, d)
+		}
+		if x.High != nil {
+			hi = desc(x.High, d)
+		}
+		return desc(x.X, d) + "[" + lo + ":" + hi + "]"
 	case *ssa.MakeMap:
 		return "makemap"
 	case *ssa.MakeSlice:
